@@ -1,7 +1,8 @@
 (* M5, part 9: the exact crash states of the source-change workload. *)
 From Coq Require Import ZArith List Bool Lia.
 Require Import JV.Base.PyPrelude JV.Model.FsModel JV.Proofs.FsModelBase JV.Proofs.FsModelRG
-               JV.Proofs.FsModelWf JV.Proofs.FsModelSeq JV.Proofs.FsModelThm JV.Proofs.FsModelClear.
+               JV.Proofs.FsModelWf JV.Proofs.FsModelSeq JV.Proofs.FsModelThm JV.Proofs.FsModelClear
+               JV.Proofs.FsModelProps.
 Import ListNotations.
 Open Scope Z_scope.
 
@@ -17,6 +18,10 @@ Proof.
       destruct (exec o s) as [r s1]. apply IH.
     + destruct (exec o s) as [r s1]. apply IH.
 Qed.
+
+Lemma crash_run_read : forall A o (k : res -> prog A) n torn s, is_mut o = false ->
+  crash_run (Op o k) n torn s = crash_run (k (fst (exec o s))) n torn (snd (exec o s)).
+Proof. intros A o k n torn s H. simpl. rewrite H. destruct (exec o s); reflexivity. Qed.
 
 (* operations that neither create nor write func_code.py *)
 Definition nocode (o : fsop) : Prop :=
@@ -160,7 +165,7 @@ Proof.
     match goal with |- Cls (crash_run (pbind ?p ?g) n torn s) =>
       destruct (crash_run_pbind _ _ p g n torn s) as [E|[m E]]; rewrite E; clear E end.
     + (* inside _check_previous_func_code: the read, then clear-and-rewrite *)
-      unfold check_code. simpl crash_run. rewrite Hb. cbn [fst snd]. rewrite dec_b, ne_b. cbn [negb].
+      unfold check_code. rewrite crash_run_read by reflexivity. cbn [exec]. rewrite Hb. cbn [fst snd]. rewrite dec_b, ne_b. cbn [negb].
       match goal with |- Cls (crash_run (pbind ?p ?g) n torn s) =>
         destruct (crash_run_pbind _ _ p g n torn s) as [E|[m E]]; rewrite E; clear E end.
       * apply crash_clear_func; auto.
@@ -176,7 +181,7 @@ Proof.
     unfold is_valid, check_code. rewrite run_pbind, run_op. cbn [exec]. rewrite Hb. cbn [fst snd]. rewrite dec_b, ne_b. cbn [negb].
     rewrite run_pbind. destruct (after_clear s HO) as [Hok HI].
     destruct (run (clear_func code cur) s) as [r1 s1]; cbn [fst snd] in *. subst r1. cbn [run fst snd].
-    right; right. apply (crash_Bp _ (fun _ => True)); auto. apply Hrec.
+    right; right. apply (crash_Bp _ (fun _ => True)); auto.
 Qed.
 
 Notation session := (session pickle unpickle meta parse_meta code code_eq decodes gitbytes f).
@@ -192,7 +197,7 @@ Proof.
   assert (Hsc : forall (X : fs -> Prop) (xok : fsop -> Prop), (forall o, safe_op o -> xok o) ->
             wf anyo anyb anyb anyb X xok _ t (fun _ => True) (store_code None)).
   { intros X xok Hx. unfold store_code, store_code_src, handled; cbn [fst snd interp_store path_of].
-    apply wf_op_all; simpl; auto. intros r. destruct (is_ok r); [apply wf_ret; auto|].
+    apply wf_op_all; [simpl; auto | apply Hx; simpl; auto | intros r]. destruct (is_ok r); [apply wf_ret; auto|].
     unfold ebind. eapply wf_pbind; [apply wf_mkdirp; auto|]. intros [u|e] _; apply wf_ret; auto. }
   match goal with |- Cls (crash_run (pbind ?p ?g) n torn s) =>
     destruct (crash_run_pbind _ _ p g n torn s) as [E|[m E]]; rewrite E; clear E end.
@@ -219,3 +224,72 @@ Proof.
 Qed.
 
 End SrcChange.
+
+Section Final.
+Variable pickle : Z -> bytes.
+Variable unpickle : bytes -> option Z.
+Variable meta : bytes.
+Variable parse_meta : bytes -> bool.
+Variable code : Z -> bytes.
+Variable code_eq : bytes -> Z -> bool.
+Variable decodes : bytes -> bool.
+Variable gitbytes : bytes.
+Variable f : Z -> Z -> Z.
+Notation session := (session pickle unpickle meta parse_meta code code_eq decodes gitbytes f).
+Notation sess := (sess pickle unpickle meta parse_meta code code_eq decodes gitbytes f).
+
+Lemma classified : forall cur t cb b k n torn s,
+  decodes b = true -> code_eq b cur = false ->
+  InvA pickle meta s -> lookup PCode s = Some b ->
+  let s' := crash_run (session cur t cb [ACall k]) n torn s in
+  InvA pickle meta s' /\ (Old b s' \/ Gone s' \/ InvB pickle meta code f cur s').
+Proof.
+  intros cur t cb b k n torn s Hd Hne HA Hb s'. split.
+  - exact (crash_A pickle unpickle meta parse_meta code code_eq decodes gitbytes f (cur, t, cb, [ACall k]) n torn s HA).
+  - apply (source_change_crash_states pickle unpickle meta parse_meta code code_eq decodes gitbytes f cur t cb b Hd Hne).
+    split; [exact (proj1 HA) | exact Hb].
+Qed.
+
+(* ... and each of them is recovered by the next process, or lies in the window where func_code.py is gone *)
+Lemma recovered_or_listed : forall cur t cb b k n torn s,
+  (forall v, unpickle (pickle v) = Some v) -> (forall j, decodes (firstn j (code cur)) = true) ->
+  decodes b = true -> code_eq b cur = false ->
+  InvA pickle meta s -> lookup PCode s = Some b ->
+  let s' := crash_run (session cur t cb [ACall k]) n torn s in
+  (forall t' cb' k' ks,
+     Forall2 (fun k o => exists c, o = OVal (f cur k) c) (k' :: ks)
+             (fst (run (session cur t' cb' (map ACall (k' :: ks))) s')) /\
+     InvB pickle meta code f cur (snd (run (session cur t' cb' (map ACall (k' :: ks))) s')))
+  \/ Gone s'.
+Proof.
+  intros cur t cb b k n torn s Hup Hdp Hd Hne HA Hb s'.
+  destruct (classified cur t cb b k n torn s Hd Hne HA Hb) as [_ [[HT Hb']|[HG|HB]]]; fold s' in HT, Hb' || idtac.
+  - left. intros t' cb' k' ks.
+    apply (guarded_session pickle unpickle meta parse_meta code code_eq decodes gitbytes f cur t' cb' Hup Hdp); auto.
+    exists b; auto.
+  - right; exact HG.
+  - left. intros t' cb' k' ks.
+    apply (recover_B pickle unpickle meta parse_meta code code_eq decodes gitbytes f cur Hup Hdp); auto.
+Qed.
+
+End Final.
+
+(* the F23 witness lies in that window *)
+Lemma toy_s1_InvA : InvA Toy.pickle Toy.meta FsModelProps.toy_s1.
+Proof.
+  pose proof (recover_B Toy.pickle Toy.unpickle Toy.meta Toy.parse_meta Toy.code Toy.code_eq Toy.decodes
+                Toy.gitbytes Toy.f 1 FsModelProps.toy_unpickle_pickle (fun j => FsModelProps.toy_decodes_prefix 1 j eq_refl) 1 None [1; 2] []
+                (FsModelProps.InvB_empty Toy.pickle Toy.meta Toy.code Toy.f 1)) as [_ (HT & HO & HM & _)].
+  split; [exact HT|]. split; [|split].
+  - intros k0 b0 H. exists (Toy.f 1 k0). apply (HO k0 b0 H).
+  - exact HM.
+  - intros; exact I.
+Qed.
+
+Lemma f23_in_window : Gone FsModelProps.f23_crashed.
+Proof.
+  split; [|vm_compute; reflexivity].
+  exact (proj1 (proj1 (classified Toy.pickle Toy.unpickle Toy.meta Toy.parse_meta Toy.code Toy.code_eq Toy.decodes
+                         Toy.gitbytes Toy.f 2 2 None (Toy.code 1) 1 3 None FsModelProps.toy_s1
+                         eq_refl eq_refl toy_s1_InvA eq_refl))).
+Qed.
